@@ -135,6 +135,8 @@ pub struct ParseContext {
     pub macros: Rc<Macro>,
     // messages
     pub messages: Rc<RefCell<Vec<String>>>,
+    // how many .include directives are open around the current file
+    pub include_depth: usize,
 }
 
 impl ParseContext {
@@ -155,6 +157,7 @@ impl ParseContext {
                 macroses: RefCell::new(hashmap! {}),
             }),
             messages: Rc::new(RefCell::new(vec![])),
+            include_depth: 0,
         }
     }
 
@@ -227,6 +230,7 @@ pub fn parse_file_internal(context: &ParseContext) -> Result<(), Error> {
         segments,
         macros,
         messages,
+        include_depth,
     } = context.clone();
     let include_paths = include_paths.borrow_mut();
 
@@ -279,6 +283,7 @@ pub fn parse_file_internal(context: &ParseContext) -> Result<(), Error> {
         segments,
         macros,
         messages,
+        include_depth,
     };
 
     parse(source.as_str(), &file_context)?;
